@@ -8,5 +8,8 @@ INVARIANT HonestAccepted
 INVARIANT RsaNotDeviceBound
 INVARIANT HistoryBound
 INVARIANT Layout
+INVARIANT SlotEntries
+INVARIANT ListNotSet
+INVARIANT ListIsSetWhenDistinct
 INVARIANT Emit
 CHECK_DEADLOCK FALSE
